@@ -16,9 +16,10 @@ type Solver struct {
 	cmd       *exec.Cmd
 	in        io.WriteCloser
 	out       *bufio.Reader
-	sent      map[int32]bool // terms defined in this session
+	sent      map[int32]bool // terms currently defined in the solver
 	nsent     int
-	depth     int // push depth
+	stack     []*Term   // asserted path condition, one scope per conjunct
+	defs      [][]int32 // term ids defined per scope level (index 0 = base)
 	Kind      string
 	timeoutMs int
 	Stats     *SolverStats
@@ -69,7 +70,8 @@ func (s *Solver) start() error {
 	s.cmd, s.in, s.out = cmd, in, bufio.NewReaderSize(out, 1<<16)
 	s.sent = make(map[int32]bool)
 	s.nsent = 0
-	s.depth = 0
+	s.stack = nil
+	s.defs = [][]int32{nil}
 	if p := os.Getenv("GOSYM_SMTLOG"); p != "" && s.log == nil {
 		f, _ := os.OpenFile(p, os.O_CREATE|os.O_WRONLY|os.O_APPEND, 0644)
 		s.log = f
@@ -107,14 +109,12 @@ func (s *Solver) send(str string) {
 	io.WriteString(s.in, "\n")
 }
 
-// define makes sure t and its sub-terms are defined at the current level.
-// Definitions are made with define-fun at base level (depth 0 bookkeeping is
-// the caller's job: we only define when depth==0 or re-define after pop).
+// define emits definitions for t and its sub-terms that are not yet known to
+// the solver, recording them at the current scope level.
 func (s *Solver) define(t *Term, sb *strings.Builder) {
 	if t.op == OConst || s.sent[t.id] {
 		return
 	}
-	// iterative post-order to avoid deep recursion
 	type fr struct {
 		t *Term
 		i int
@@ -137,6 +137,9 @@ func (s *Solver) define(t *Term, sb *strings.Builder) {
 		}
 		s.sent[x.id] = true
 		s.nsent++
+		if s.defs != nil {
+			s.defs[len(s.defs)-1] = append(s.defs[len(s.defs)-1], x.id)
+		}
 		if x.op == OSym {
 			fmt.Fprintf(sb, "(declare-const %s %s)\n", symName(x.name), sortOf(x))
 			if x.w > 0 {
@@ -151,17 +154,6 @@ func (s *Solver) define(t *Term, sb *strings.Builder) {
 		} else {
 			fmt.Fprintf(sb, "(define-fun t%d () %s %s)\n", x.id, sortOf(x), x.body())
 		}
-	}
-}
-
-// ensureBase must be called with depth==0: defines terms globally.
-func (s *Solver) defineAll(ts ...*Term) {
-	var sb strings.Builder
-	for _, t := range ts {
-		s.define(t, &sb)
-	}
-	if sb.Len() > 0 {
-		s.send(sb.String())
 	}
 }
 
@@ -180,35 +172,74 @@ func (s *Solver) readLine() (string, error) {
 	return strings.TrimSpace(l), err
 }
 
-// Check asks whether the conjunction of conds is satisfiable.  All solver
-// state is stateless across calls (definitions aside): asserts are scoped.
-func (s *Solver) Check(conds []*Term) Result {
-	r, _ := s.CheckModel(conds, nil, "")
+func (s *Solver) pushLevel(sb *strings.Builder) {
+	sb.WriteString("(push 1)\n")
+	s.defs = append(s.defs, nil)
+}
+
+func (s *Solver) popLevels(n int, sb *strings.Builder) {
+	if n <= 0 {
+		return
+	}
+	fmt.Fprintf(sb, "(pop %d)\n", n)
+	for i := 0; i < n; i++ {
+		top := s.defs[len(s.defs)-1]
+		for _, id := range top {
+			delete(s.sent, id)
+		}
+		s.nsent -= len(top)
+		s.defs = s.defs[:len(s.defs)-1]
+	}
+}
+
+// sync makes the solver's assertion stack equal to pc (one level per conjunct).
+func (s *Solver) sync(pc []*Term, sb *strings.Builder) {
+	k := 0
+	for k < len(pc) && k < len(s.stack) && pc[k] == s.stack[k] {
+		k++
+	}
+	if k < len(s.stack) {
+		s.popLevels(len(s.stack)-k, sb)
+		s.stack = s.stack[:k]
+	}
+	for ; k < len(pc); k++ {
+		s.pushLevel(sb)
+		s.define(pc[k], sb)
+		fmt.Fprintf(sb, "(assert %s)\n", pc[k].ref())
+		s.stack = append(s.stack, pc[k])
+	}
+}
+
+// Check asks whether pc && extra is satisfiable.
+func (s *Solver) Check(pc []*Term, extra ...*Term) Result {
+	r, _ := s.CheckModel(pc, extra, nil, "")
 	return r
 }
 
-// CheckModel checks and, if sat and syms!=nil, returns values for syms.
-// extra is raw SMT-LIB text asserted inside the scope (may be empty).
-func (s *Solver) CheckModel(conds []*Term, syms []*Term, extra string) (Result, map[string]uint64) {
+// CheckModel checks pc && extra (&& raw SMT text) and, if sat and syms!=nil,
+// returns values for syms.  The path condition is kept asserted between
+// calls (one scope per conjunct), so consecutive queries along a path only
+// pay for what is new.
+func (s *Solver) CheckModel(pc []*Term, extra []*Term, syms []*Term, text string) (Result, map[string]uint64) {
 	t0 := time.Now()
 	defer func() { s.Stats.Time += time.Since(t0) }()
-	if s.nsent > 400000 {
+	if s.nsent > 300000 || len(s.stack) > 0 && len(pc) == 0 && s.nsent > 50000 {
 		s.Restart()
 	}
-	// Definitions inside a push scope vanish on pop in z3; define at base.
-	all := append([]*Term{}, conds...)
-	all = append(all, syms...)
-	s.defineAll(all...)
 	var sb strings.Builder
-	sb.WriteString("(push 1)\n")
-	for _, c := range conds {
-		if c.op == OConst && c.c != 0 {
-			continue
-		}
+	s.sync(pc, &sb)
+	s.pushLevel(&sb)
+	for _, c := range extra {
+		s.define(c, &sb)
+	}
+	for _, c := range syms {
+		s.define(c, &sb)
+	}
+	for _, c := range extra {
 		fmt.Fprintf(&sb, "(assert %s)\n", c.ref())
 	}
-	if extra != "" {
-		sb.WriteString(extra)
+	if text != "" {
+		sb.WriteString(text)
 		sb.WriteString("\n")
 	}
 	sb.WriteString("(check-sat)\n")
@@ -232,7 +263,6 @@ func (s *Solver) CheckModel(conds []*Term, syms []*Term, extra string) (Result, 
 	default:
 		s.Stats.Errors++
 		fmt.Fprintf(os.Stderr, "ENGINE-ERROR solver said: %q\n", line)
-		// resynchronise by restarting
 		s.Restart()
 		return Unknown, nil
 	}
@@ -255,7 +285,9 @@ func (s *Solver) CheckModel(conds []*Term, syms []*Term, extra string) (Result, 
 		}
 		model = parseModel(txt, syms)
 	}
-	s.send("(pop 1)")
+	var pb strings.Builder
+	s.popLevels(1, &pb)
+	s.send(pb.String())
 	return res, model
 }
 
